@@ -430,7 +430,7 @@ func main() {
 			}
 		}
 
-		n := c.Budget(1500, 40000)
+		n := c.Budget(1000, 40000)
 		for k := 0; k < n && c.NFailures() < 3; k++ {
 			size := 15 + c.Rng.Intn(40)
 			if k%5 == 0 {
